@@ -65,6 +65,7 @@ func c14(c *Ctx) {
 	c14Strength(c)
 	c14BigInt(c)
 	c14KeyPair(c)
+	c14NilMsg(c)
 }
 
 // ---------------------------------------------------------------- validate
